@@ -6,7 +6,7 @@ ID = "C13"
 LEVEL = "proof"
 PROPS_FILE = "C13.v"
 RUN_MODULE = "RunC13"
-TRANSLATOR_UNITS = []
+TRANSLATOR_UNITS = ["asyncfifo"]
 SHARD = 700
 F4 = "F4-asyncfifo-depth1-elaborate"
 # The text of C13 quantifies over clock interleavings and strobe/data sequences only, not over the domains' resets.
